@@ -753,7 +753,7 @@ def c17(tier, rep):
 def c19(tier, rep):
     from . import fam_costs as fc, fam_profiles as fp, fam_names as fn
 
-    ap = fc.alloc_programs(tier)
+    ap = fc.alloc_programs(tier) + fc.exact_alloc_programs()
     fr = e2.run_family("c19alloc", ap, extra_header=fp.HEADER + fc.ALLOC_HEADER)
     judge_family(rep, fr)
     alloc_free = sum(1 for p in ap if "allocation-free=true" in ((fr.results.get(p.id, {}).get("sample") or {}).get("value") or ""))
@@ -796,7 +796,7 @@ def c10(tier, rep):
 def c07(tier, rep):
     from . import e1, e3a, e3t, fam_agree as fa, fam_async, fam_profiles as fp, fam_threads
 
-    progs = fa.pair_programs(tier)
+    progs = fa.pair_programs(tier) + fa.send_not_sync_programs()
     fr = e2.run_family("c07pairs", progs, extra_header=fp.HEADER)
     judge_family(rep, fr)
     cp = fa.chain_pair_programs()
@@ -826,6 +826,20 @@ def c07(tier, rep):
                 if d["ohash"] != other["ohash"] or d["executions"] != other["executions"]:
                     rep.violate("%s | outcome set" % pid, "the set of outcomes explored for %s differs from the one of its long name (%d vs %d executions)" % (pid, d["executions"], other["executions"]), {"alias": d.get("sample"), "long": other.get("sample")})
     rep.set("alias_outcome_sets_compared", cmp_n)
+    # plain vs task-spawning variant under EVERY wake-up order and failure subset: the SETS of (fault row, returned value) must agree
+    # (e.g. which of two branches failing in the same step can be returned)
+    fres = run_async(rep, tier, "c05", "try macro: plain vs task-spawning variant", keep=lambda w: False)
+    vs_n = 0
+    for pid, d in fres.results.items():
+        mac = pid.split("/")[0]
+        if mac in ("try_join_async_spawn", "try_async_spawn"):
+            plain = pid.replace(mac + "/", "try_join_async/", 1)
+            if plain in fres.results:
+                vs_n += 1
+                o = fres.results[plain]
+                if o["vhash"] != d["vhash"]:
+                    rep.violate("%s | value set" % pid, "the set of values %s can return over all wake-up orders and failure subsets differs from the one of try_join_async! (%d vs %d distinct (row, value) pairs) — e.g. fail-fast behaviour or which failing branch wins" % (pid, d["nvalues"], o["nvalues"]), {"spawn": d.get("sample"), "plain": o.get("sample")})
+    rep.set("plain_vs_spawn_value_sets_compared", vs_n)
     rep.set("disagreements_checked", fr.rows + fr2.rows + npairs + cmp_n)
     rep.set("rule", "(a) the SAME generated program (depth profiles plain / capture-rich / handler+let with every failure subset; every typed chain of length <= 2 as first branch) instantiated under both names of each of the 12 pairs {plain, spawn variant, alias}: results and per-branch traces compared directly, real macro against real macro; (b) real expansion text (rustc -Zunpretty=expanded) of alias!{P} == long!{P} for P over the 40-input feature corpus x 4 alias pairs, and join_impl called as a library (E1) == the real proc-macro; (c) under the thread scheduler / deterministic executor the outcome set explored for an alias equals the one of its long name and every outcome equals the plain macro's reference")
     sample_family(rep, progs, fr)
